@@ -91,6 +91,13 @@ class TemperedStrategy(EmceeStrategy):
         self.seed = seed
         self.walker_initial_pos = walker_initial_pos
         self.next_initial_dist = next_initial_dist
+        # kept under the constructor's names so that they are saved with
+        # the strategy
+        self.nsamples = nsamples
+        self.min_pixels = min_pixels
+        self.npixels = npixels
+        self.stages = stages
+        self.stage_len = stage_len
         self.stage_strategies = []
         if min_pixels is None:
             min_pixels = npixels/20
@@ -101,14 +108,17 @@ class TemperedStrategy(EmceeStrategy):
         self.add_stage_strategy(nsamples, npixels)
 
     def add_stage_strategy(self, nsamples, npixels):
+        # each stage gets its own seed, counted up from the strategy's seed
+        # (which itself stays what the user asked for)
+        seed = self.seed
+        if seed is not None:
+            seed += len(self.stage_strategies)
         self.stage_strategies.append(
             EmceeStrategy(nwalkers=self.nwalkers,
                           nsamples=nsamples,
                           npixels=int(round(npixels)),
                           parallel=self.parallel,
-                          seed=self.seed))
-        if self.seed is not None:
-            self.seed += 1
+                          seed=seed))
 
     def sample(self, model, data):
         start_time = time.time()
